@@ -1,7 +1,13 @@
 #!/bin/sh
-# Build the framework from files on disk only (offline).
+# Build the framework from files on disk only (offline): regenerate tables, build every Lean module (model, driver,
+# theorem files, audit command) and the harness in the configurations the quick checks use.
 set -e
 cd "$(dirname "$0")"
+export CARGO_NET_OFFLINE=true
 python3 tools/gen.py
-(cd lean && lake build 2>&1 | tail -3)
-(cd harness && CARGO_NET_OFFLINE=true cargo build --offline 2>&1 | tail -3)
+(cd lean && lake build 2>&1 | tail -3 && lake build Rrtk.Audit $(ls Rrtk/Thm/C*.lean | sed 's#/#.#g; s#\.lean$##') 2>&1 | tail -3)
+(cd harness && RUSTFLAGS="--cfg rrtk_verif" cargo build --offline --quiet 2>&1 | tail -3
+ for f in std,devices libm,devices; do
+   RUSTFLAGS="--cfg rrtk_verif" cargo build --offline --quiet --no-default-features --features $f --target-dir target/cfg_$(echo $f | tr , _) 2>&1 | tail -3
+ done)
+echo setup done
